@@ -51,6 +51,8 @@ const (
 	vfMParamsAndElection
 	vfMElectionAndOp
 	vfMEmpty
+	vfMParamsAndOp
+	vfMAllThree
 )
 
 type vfMsgD struct {
@@ -73,7 +75,7 @@ func vfSymMsg(i int) (*vfMsgD, *spb.ModifyRequest) { return vfSymMsgK(i, -1) }
 func vfSymMsgK(i, kind int) (*vfMsgD, *spb.ModifyRequest) {
 	d := &vfMsgD{kind: kind, opID: uint64(i + 1), opIdx: uint64(100 + i)}
 	if kind < 0 {
-		d.kind = vfInt("m.kind", 0, 5)
+		d.kind = vfInt("m.kind", 0, 7)
 	}
 	m := &spb.ModifyRequest{}
 	params := func() {
@@ -115,6 +117,13 @@ func vfSymMsgK(i, kind int) (*vfMsgD, *spb.ModifyRequest) {
 		params()
 		election()
 	case vfMElectionAndOp:
+		election()
+		op()
+	case vfMParamsAndOp:
+		params()
+		op()
+	case vfMAllThree:
+		params()
 		election()
 		op()
 	}
@@ -175,7 +184,7 @@ func vfC09K(k int, kinds []int) {
 			break
 		}
 		switch d.kind {
-		case vfMParamsAndElection, vfMElectionAndOp:
+		case vfMParamsAndElection, vfMElectionAndOp, vfMParamsAndOp, vfMAllThree:
 			terminated, wantCode = true, []codes.Code{codes.InvalidArgument}
 		case vfMEmpty:
 			terminated = true // any non-OK status
